@@ -89,6 +89,10 @@ def fragEval : Expr → EvalCtx → Option Val
     match ← fragEval a ec, ← fragEval b ec with
     | .int x, .int y => pure (.int (x + y))
     | _, _ => none
+  | .div a b, ec => do
+    match ← fragEval a ec, ← fragEval b ec with
+    | .int x, .int y => if y == 0 then none else pure (.int (x / y))
+    | _, _ => none
 
 def fragEvaluator : Evaluator := ⟨fragEval⟩
 
